@@ -11,7 +11,10 @@
 (*              "hash",                                                     *)
 (*              "crlf_escape", "indent8"                                     *)
 (*   Places   : "module", "in_def", "after_decorator", "between_imports",    *)
-(*              "call_arg", "dict_value"                                     *)
+(*              "call_arg", "dict_value", blank-line placements inside       *)
+(*              brackets, "nested_last_stmt" / "after_import_in_def" (the    *)
+(*              literal continues LEFT of its statement), "fsegment" (the    *)
+(*              value also occurs as text segment of f-strings)              *)
 (* The property of every layout stage s on every case c:                     *)
 (*     Tree(s(c)) = Tree(c)   and   Strings(s(c)) = Strings(c)               *)
 (* where Tree ignores positions and whitespace inside docstrings.  Which     *)
